@@ -49,6 +49,31 @@ func EmptyConfig(group curve.Curve) *Config {
 	}
 }
 
+// Validate checks that this configuration can take part in a protocol run: nothing is missing,
+// the threshold fits the number of parties, the share is not zero and matches this party's own
+// verification share, and no public value is the identity.
+func (r *Config) Validate() error {
+	if r == nil || r.PrivateShare == nil || r.PublicKey == nil || r.VerificationShares == nil {
+		return errors.New("frost: config is missing fields")
+	}
+	shares := r.VerificationShares.Points
+	if r.ID == "" || r.Threshold < 0 || r.Threshold >= len(shares) {
+		return errors.New("frost: config has an invalid party ID or threshold")
+	}
+	if r.PrivateShare.IsZero() || r.PublicKey.IsIdentity() {
+		return errors.New("frost: config has a zero share or an identity public key")
+	}
+	for id, share := range shares {
+		if id == "" || share == nil || share.IsIdentity() {
+			return errors.New("frost: config has an invalid verification share")
+		}
+	}
+	if own, ok := shares[r.ID]; !ok || !own.Equal(r.PrivateShare.ActOnBase()) {
+		return errors.New("frost: private share does not match this party's verification share")
+	}
+	return nil
+}
+
 // Curve returns the Elliptic Curve Group associated with this result.
 func (r *Config) Curve() curve.Curve {
 	return r.PublicKey.Curve()
@@ -123,6 +148,34 @@ type TaprootConfig struct {
 	//
 	// This will later be used to verify the integrity of the signing protocol.
 	VerificationShares map[party.ID]*curve.Secp256k1Point
+}
+
+// Validate checks that this configuration can take part in a protocol run (see Config.Validate).
+func (r *TaprootConfig) Validate() error {
+	if r == nil || r.PrivateShare == nil || r.VerificationShares == nil {
+		return errors.New("frost: config is missing fields")
+	}
+	if r.ID == "" || r.Threshold < 0 || r.Threshold >= len(r.VerificationShares) {
+		return errors.New("frost: config has an invalid party ID or threshold")
+	}
+	if len(r.PublicKey) != 32 {
+		return errors.New("frost: taproot public key must be 32 bytes long")
+	}
+	if _, err := (curve.Secp256k1{}).LiftX(r.PublicKey); err != nil {
+		return fmt.Errorf("frost: taproot public key: %w", err)
+	}
+	if r.PrivateShare.IsZero() {
+		return errors.New("frost: config has a zero share")
+	}
+	for id, share := range r.VerificationShares {
+		if id == "" || share == nil || share.IsIdentity() {
+			return errors.New("frost: config has an invalid verification share")
+		}
+	}
+	if own, ok := r.VerificationShares[r.ID]; !ok || !own.Equal(r.PrivateShare.ActOnBase()) {
+		return errors.New("frost: private share does not match this party's verification share")
+	}
+	return nil
 }
 
 // Clone creates a deep clone of this struct, and all the values contained inside
